@@ -179,6 +179,17 @@ def one_case(ctx, index: int, rng: random.Random):
             c0, c1 = rows[:, 0].copy(), rows[:, 1].copy()
             if rng.random() < 0.3:
                 c0, c1 = c0.tolist(), c1.tolist()
+            elif n >= 4 and n % 2 == 0 and rng.random() < 0.4:
+                # coordinate arrays of more than one dimension, in different memory layouts: rows pair up by index, not by address
+                c0, c1 = c0.reshape(2, -1), c1.reshape(2, -1)
+                which = rng.randrange(3)
+                if which == 0:
+                    c0 = np.asfortranarray(c0)
+                elif which == 1:
+                    c1 = np.ascontiguousarray(c1.T).T
+                else:
+                    c0, c1 = np.asfortranarray(c0), np.asfortranarray(c1)
+                form = "h2/layouts"
             h = physt.h2(c0, c1, bins_arg, **kwargs)
         elif form == "h3_rows":
             h = physt.h3(rows, bins_arg, **kwargs)
